@@ -335,6 +335,18 @@ func (c *Ctx) ruleReflect(rule string, fns map[*ssa.Function]bool) {
 							"a struct-mapped object whose Go type embeds a *struct: Unserialize (fresh value) and Validate / Serialize (nil embedded pointer in the data) panic with 'indirection through nil pointer to embedded struct' instead of returning an error; FieldByIndexErr is the non-panicking form")
 					}
 				}
+				if m == "Elem" && len(call.Call.Args) == 1 {
+					// (g) Elem() of a nil pointer (or nil interface) Value does not panic: it returns the zero Value, on
+					// which nearly every method does. The receiver must be known not to be a nil pointer.
+					cnt["elem"]++
+					k := key(rule, c.M.Key(fn), sprintf("reflect.Value.Elem #%d is not applied to a nil pointer", cnt["elem"]))
+					if why := c.elemNonNil(fn, call, 0); why != "" {
+						c.R.Ok(rule, k, c.M.InstrPos(call), "Elem() of a reflect.Value", why)
+					} else {
+						c.R.Bad(rule, k, c.M.InstrPos(call), "reflect.Value.Elem() of a pointer that may be nil",
+							"Elem() of a nil pointer is the zero Value; the field access, Interface() or Kind-dependent call that follows panics ('call of reflect.Value.… on zero Value') for a typed nil pointer in the data instead of rejecting it")
+					}
+				}
 				if !zeroPanics[m] {
 					continue
 				}
@@ -368,6 +380,250 @@ func (c *Ctx) ruleReflect(rule string, fns map[*ssa.Function]bool) {
 		}
 	}
 	c.R.Note("%s: %d reflect.Value method calls on values not produced by reflect.ValueOf in the same function are listed as not decided (kind / assignability preconditions)", rule, listed)
+}
+
+// elemNonNil: why the receiver of this Elem() call is not a nil pointer; "" if that is not established.
+//   - it was made by reflect.New (or is the address of something: Addr());
+//   - on every path IsNil() of the same Value was found false;
+//   - the function recovers;
+//   - the result is only asked IsValid() / Kind();
+//   - the receiver is a parameter, and at every call site the argument is known not to be a nil pointer: IsNil() false on
+//     every path - or, when this Elem() is only executed under Kind() == Pointer of the receiver, "not a pointer at all"
+//     counts too (the caller's `if v.Kind() == Pointer && v.IsNil() { return err }` guard establishes one or the other).
+func (c *Ctx) elemNonNil(fn *ssa.Function, call *ssa.Call, depth int) string {
+	recv := call.Call.Args[0]
+	if madeByNew(recv, map[ssa.Value]bool{}) {
+		return "the receiver was made by reflect.New / Addr (on every incoming edge): never a nil pointer"
+	}
+	if isRecoverScope(fn) {
+		return "the function recovers: a panic on the zero Value becomes the recovered error"
+	}
+	onlyAsked := true
+	if refs := call.Referrers(); refs != nil {
+		for _, r := range *refs {
+			rc, ok := r.(*ssa.Call)
+			if !ok || (reflectValueMethod(rc) != "IsValid" && reflectValueMethod(rc) != "Kind") {
+				onlyAsked = false
+			}
+		}
+		if len(*refs) > 0 && onlyAsked {
+			return "the result is only asked IsValid() / Kind()"
+		}
+	}
+	path := c.reflPath(recv, 0)
+	notNil := func(p string, alsoNotPointer bool) func(core.Cond) bool {
+		return func(cond core.Cond) bool {
+			switch x := cond.V.(type) {
+			case *ssa.Call:
+				return reflectValueMethod(x) == "IsNil" && !cond.True && c.reflPath(x.Call.Args[0], 0) == p
+			case *ssa.BinOp:
+				if !alsoNotPointer || (x.Op != token.EQL && x.Op != token.NEQ) {
+					return false
+				}
+				for _, side := range []ssa.Value{x.X, x.Y} {
+					kc, ok := side.(*ssa.Call)
+					if !ok || reflectValueMethod(kc) != "Kind" || c.reflPath(kc.Call.Args[0], 0) != p {
+						continue
+					}
+					other := x.Y
+					if side == x.Y {
+						other = x.X
+					}
+					// reflect.Pointer == 22
+					if k, isConst := core.ConstInt(other); isConst && k == 22 && (x.Op == token.EQL) != cond.True {
+						return true
+					}
+				}
+			}
+			return false
+		}
+	}
+	if core.MustHold(fn, notNil(path, false))[call.Block()] {
+		return "on every path IsNil() of the same Value was found false"
+	}
+	// a parameter: look at the callers
+	var param *ssa.Parameter
+	pi := -1
+	for i, p := range fn.Params {
+		if ssa.Value(p) == recv {
+			param, pi = p, i
+		}
+	}
+	if param == nil || depth >= 3 {
+		return ""
+	}
+	underPointer := false
+	for _, cond := range core.CondsAt(call.Block()) {
+		if bin, ok := cond.V.(*ssa.BinOp); ok && (bin.Op == token.EQL || bin.Op == token.NEQ) {
+			for _, side := range []ssa.Value{bin.X, bin.Y} {
+				kc, ok := side.(*ssa.Call)
+				if !ok || reflectValueMethod(kc) != "Kind" || c.reflPath(kc.Call.Args[0], 0) != path {
+					continue
+				}
+				other := bin.Y
+				if side == bin.Y {
+					other = bin.X
+				}
+				if k, isConst := core.ConstInt(other); isConst && k == 22 && (bin.Op == token.EQL) == cond.True {
+					underPointer = true
+				}
+			}
+		}
+	}
+	sites := 0
+	for _, g := range c.M.Funcs {
+		for _, b := range g.Blocks {
+			for _, in := range b.Instrs {
+				ci, ok := in.(ssa.CallInstruction)
+				if !ok {
+					continue
+				}
+				hit := false
+				for _, callee := range c.M.Callees(ci.Common()) {
+					if callee == fn {
+						hit = true
+					}
+				}
+				if !hit {
+					continue
+				}
+				ai := pi
+				if ci.Common().IsInvoke() {
+					ai = pi - 1
+				}
+				if ai < 0 || ai >= len(ci.Common().Args) {
+					return ""
+				}
+				sites++
+				arg := ci.Common().Args[ai]
+				if madeByNew(arg, map[ssa.Value]bool{}) {
+					continue
+				}
+				if core.MustHold(g, notNil(c.reflPath(arg, 0), underPointer))[b] {
+					continue
+				}
+				// the caller passes its own parameter on
+				passedOn := false
+				for _, gp := range g.Params {
+					if ssa.Value(gp) == arg {
+						passedOn = c.paramNeverNilPointer(g, gp, underPointer, depth+1)
+					}
+				}
+				if !passedOn {
+					return ""
+				}
+			}
+		}
+	}
+	if sites == 0 {
+		return ""
+	}
+	return sprintf("the receiver is parameter %s; at each of the %d call sites the argument is known not to be a nil pointer (IsNil() false%s on every path, through at most %d callers)", param.Name(), sites, map[bool]string{true: " or Kind() != Pointer", false: ""}[underPointer], 3)
+}
+
+// madeByNew: v is the result of reflect.New / Value.Addr, or a phi of such.
+func madeByNew(v ssa.Value, seen map[ssa.Value]bool) bool {
+	if seen[v] {
+		return true
+	}
+	seen[v] = true
+	switch x := v.(type) {
+	case *ssa.Call:
+		n := core.StaticCalleeName(&x.Call)
+		return n == "reflect.New" || n == "(reflect.Value).Addr"
+	case *ssa.Phi:
+		for _, e := range x.Edges {
+			if !madeByNew(e, seen) {
+				return false
+			}
+		}
+		return len(x.Edges) > 0
+	}
+	return false
+}
+
+// paramNeverNilPointer: at every call site of g the argument for parameter p is known not to be a nil pointer.
+func (c *Ctx) paramNeverNilPointer(g *ssa.Function, p *ssa.Parameter, alsoNotPointer bool, depth int) bool {
+	if depth >= 3 {
+		return false
+	}
+	pi := -1
+	for i, q := range g.Params {
+		if q == p {
+			pi = i
+		}
+	}
+	est := func(path string) func(core.Cond) bool {
+		return func(cond core.Cond) bool {
+			switch x := cond.V.(type) {
+			case *ssa.Call:
+				return reflectValueMethod(x) == "IsNil" && !cond.True && c.reflPath(x.Call.Args[0], 0) == path
+			case *ssa.BinOp:
+				if !alsoNotPointer || (x.Op != token.EQL && x.Op != token.NEQ) {
+					return false
+				}
+				for _, side := range []ssa.Value{x.X, x.Y} {
+					kc, ok := side.(*ssa.Call)
+					if !ok || reflectValueMethod(kc) != "Kind" || c.reflPath(kc.Call.Args[0], 0) != path {
+						continue
+					}
+					other := x.Y
+					if side == x.Y {
+						other = x.X
+					}
+					if k, isConst := core.ConstInt(other); isConst && k == 22 && (x.Op == token.EQL) != cond.True {
+						return true
+					}
+				}
+			}
+			return false
+		}
+	}
+	sites := 0
+	for _, h := range c.M.Funcs {
+		for _, b := range h.Blocks {
+			for _, in := range b.Instrs {
+				ci, ok := in.(ssa.CallInstruction)
+				if !ok {
+					continue
+				}
+				hit := false
+				for _, callee := range c.M.Callees(ci.Common()) {
+					if callee == g {
+						hit = true
+					}
+				}
+				if !hit {
+					continue
+				}
+				ai := pi
+				if ci.Common().IsInvoke() {
+					ai = pi - 1
+				}
+				if ai < 0 || ai >= len(ci.Common().Args) {
+					return false
+				}
+				sites++
+				arg := ci.Common().Args[ai]
+				if madeByNew(arg, map[ssa.Value]bool{}) {
+					continue
+				}
+				if core.MustHold(h, est(c.reflPath(arg, 0)))[b] {
+					continue
+				}
+				ok2 := false
+				for _, hp := range h.Params {
+					if ssa.Value(hp) == arg {
+						ok2 = c.paramNeverNilPointer(h, hp, alsoNotPointer, depth+1)
+					}
+				}
+				if !ok2 {
+					return false
+				}
+			}
+		}
+	}
+	return sites > 0
 }
 
 // fromStructField: v is the Name or Index of a reflect.StructField value.
